@@ -79,37 +79,41 @@ SharedShape(path) == [u |-> 0, path |-> path]
 UniqueShape(n)    == [u |-> n, path |-> <<>>]
 NoShape           == [u |-> 0, path |-> <<[t |-> "none", k |-> "", a |-> NoAtt, p |-> 0]>>]
 
-\* the property table (key, attributes) a shared shape denotes
-RECURSIVE TableAt(_)
-TableAt(path) ==
-  IF path = <<>> THEN <<>>
-  ELSE LET pre == TableAt(SubSeq(path, 1, Len(path) - 1))
-           e == path[Len(path)]
-       IN IF e.t = "i" THEN Append(pre, [k |-> e.k, a |-> e.a])
-          ELSE IF e.t = "c" THEN [x \in 1..Len(pre) |-> IF pre[x].k = e.k THEN [k |-> e.k, a |-> e.a] ELSE pre[x]]
-          ELSE pre
+\* Tables(path)[j] = the property table (key, attributes) denoted by the shape reached after j transitions
+RECURSIVE TablesFrom(_, _, _)
+TablesFrom(path, j, acc) ==
+  IF j > Len(path) THEN acc
+  ELSE LET pre == IF j = 1 THEN <<>> ELSE acc[j - 1]
+           e == path[j]
+           tab == IF e.t = "i" THEN Append(pre, [k |-> e.k, a |-> e.a])
+                  ELSE IF e.t = "c" THEN [x \in 1..Len(pre) |-> IF pre[x].k = e.k THEN [k |-> e.k, a |-> e.a] ELSE pre[x]]
+                  ELSE pre
+       IN TablesFrom(path, j + 1, Append(acc, tab))
+Tables(path) == TablesFrom(path, 1, <<>>)
+TableAt(path) == IF path = <<>> THEN <<>> ELSE Tables(path)[Len(path)]
 
 NoPr == 99
 \* SharedShape::rollback_before: walk back to the insertion of k; remember the latest prototype
 \* transition and, for every other shape on the way, the LAST property of its table (first seen wins).
-RECURSIVE Rollback(_, _, _, _, _)
-Rollback(path, j, k, pr, acc) ==
+RECURSIVE Rollback(_, _, _, _, _, _)
+Rollback(path, tabs, j, k, pr, acc) ==
   LET e == path[j]
-  IN IF e.t = "p" THEN Rollback(path, j - 1, k, IF pr = NoPr THEN e.p ELSE pr, acc)
-     ELSE LET tab == TableAt(SubSeq(path, 1, j))
+  IN IF e.t = "p" THEN Rollback(path, tabs, j - 1, k, IF pr = NoPr THEN e.p ELSE pr, acc)
+     ELSE LET tab == tabs[j]
               last == tab[Len(tab)]
           IN IF e.t = "i" /\ last.k = k THEN [base |-> SubSeq(path, 1, j - 1), pr |-> pr, acc |-> acc]
              ELSE IF last.k # k /\ ~(\E x \in 1..Len(acc) : acc[x].k = last.k)
-                    THEN Rollback(path, j - 1, k, pr, Append(acc, last))
-                    ELSE Rollback(path, j - 1, k, pr, acc)
+                    THEN Rollback(path, tabs, j - 1, k, pr, Append(acc, last))
+                    ELSE Rollback(path, tabs, j - 1, k, pr, acc)
 
 Reverse(s) == [i \in 1..Len(s) |-> s[Len(s) + 1 - i]]
 
 Rebuild(path, k, first) ==   \* first = <<>> for delete, <<Ins(k, a)>> for a width-changing reconfiguration
-  LET rb == Rollback(path, Len(path), k, NoPr, <<>>)
-      cur == TableAt(path)
+  LET tabs == Tables(path)
+      rb == Rollback(path, tabs, Len(path), k, NoPr, <<>>)
+      cur == tabs[Len(path)]
       CurAtt(key) == cur[CHOOSE x \in 1..Len(cur) : cur[x].k = key].a
-      bt == TableAt(rb.base)
+      bt == IF rb.base = <<>> THEN <<>> ELSE tabs[Len(rb.base)]
       \* repair F4: attribute changes of earlier properties that happened after the insertion of k
       stale == SelectSeq(bt, LAMBDA e : e.a # CurAtt(e.k))
       fixed == IF FixRollback THEN rb.base \o [i \in 1..Len(stale) |-> Cfg(stale[i].k, CurAtt(stale[i].k))]
@@ -165,8 +169,6 @@ Reshape(st, O2) ==
                    ELSE SharedShape(SharedSteps(st.shp[o].path, chs(o)))]
       O3 == [o \in Objs |-> IF o \in changed /\ ~uq[o] THEN Retab(O2[o], TableAt(newShp[o].path)) ELSE O2[o]]
   IN [st EXCEPT !.O = O3, !.shp = newShp, !.nextU = @ + Cardinality(renew)]
-
-LosesAttrs(st, O2) == Reshape(st, O2).O # O2          \* flaw F4 strikes in this step
 
 -----------------------------------------------------------------------------
 (* storage layout *)
@@ -336,13 +338,13 @@ SetHit(k, o, v) ==
      /\ LET e == cst.sites[s].ent[i]
             h == HitSet(cst.O, o, e, v, o)
             rc == OrdSet(cst.O, o, k, v)
-            tag == IF h.obs = rc.obs /\ h.O = rc.O THEN ""
-                   ELSE HitFlaw(cst, o, e, k, IF rc.obs.ok THEN SetSlot(cst.O, cst.shp, o, k) ELSE <<>>)
+            tag == IF h.obs = rc.obs /\ h.O = rc.O THEN "" ELSE HitFlaw(cst, o, e, k, SetSlot(cst.O, cst.shp, o, k))
+            nu == Reshape(ust, ru.O)
         IN /\ cst' = Kill([cst EXCEPT !.O = h.O], h.obs)
            /\ log' = Append(log, Rec("S", o, k, "-", 0, v, r.obs, h.obs, ru.obs, TRUE,
-                                     IF tag # "" THEN tag ELSE IF LosesAttrs(ust, ru.O) THEN "F4" ELSE ""))
+                                     IF tag # "" THEN tag ELSE IF nu.O # ru.O THEN "F4" ELSE ""))
+           /\ ust' = nu
      /\ objs' = r.O
-     /\ ust' = Reshape(ust, ru.O)
      /\ UNCHANGED <<uq, glob>>
 
 \* set_by_name, miss: __set__, then cache if it succeeded and the slot is cacheable
@@ -351,13 +353,15 @@ SetMiss(k, o, v) ==
       r == OrdSet(objs, o, k, v)
       ru == OrdSet(ust.O, o, k, v)
       rc == OrdSet(cst.O, o, k, v)
+      nu == Reshape(ust, ru.O)
+      nc == IF cst.dead THEN cst ELSE Reshape(cst, rc.O)
   IN /\ MatchIdx(cst, s, o) = 0
      /\ cst' = IF cst.dead THEN cst
-               ELSE PushAt(Reshape(cst, rc.O), s, IF rc.obs.ok THEN SetSlot(cst.O, cst.shp, o, k) ELSE <<>>)
+               ELSE PushAt(nc, s, IF rc.obs.ok THEN SetSlot(cst.O, cst.shp, o, k) ELSE <<>>)
      /\ log' = Append(log, Rec("S", o, k, "-", 0, v, r.obs, IF cst.dead THEN DeadObs ELSE rc.obs, ru.obs, FALSE,
-                               IF LosesAttrs(ust, ru.O) \/ (~cst.dead /\ LosesAttrs(cst, rc.O)) THEN "F4" ELSE ""))
+                               IF nu.O # ru.O \/ (~cst.dead /\ nc.O # rc.O) THEN "F4" ELSE ""))
      /\ objs' = r.O
-     /\ ust' = Reshape(ust, ru.O)
+     /\ ust' = nu
      /\ UNCHANGED <<uq, glob>>
 
 \* mutations never touch the caches: the same ordinary operation on each graph
@@ -365,12 +369,14 @@ Mutate(op, o, k, d, p, Apply(_)) ==
   LET r == Apply(objs)
       ru == Apply(ust.O)
       rc == Apply(cst.O)
+      nu == Reshape(ust, ru.O)
+      nc == IF cst.dead THEN cst ELSE Reshape(cst, rc.O)
   IN /\ objs' = r.O
-     /\ ust' = Reshape(ust, ru.O)
-     /\ cst' = IF cst.dead THEN cst ELSE Reshape(cst, rc.O)
+     /\ ust' = nu
+     /\ cst' = nc
      /\ log' = Append(log, Rec(op, o, k, d, p, 0, Obs(0, r.ok, <<>>, FALSE),
                                IF cst.dead THEN DeadObs ELSE Obs(0, rc.ok, <<>>, FALSE), Obs(0, ru.ok, <<>>, FALSE), FALSE,
-                               IF LosesAttrs(ust, ru.O) \/ (~cst.dead /\ LosesAttrs(cst, rc.O)) THEN "F4" ELSE ""))
+                               IF nu.O # ru.O \/ (~cst.dead /\ nc.O # rc.O) THEN "F4" ELSE ""))
      /\ UNCHANGED <<uq, glob>>
 
 Define(o, dk, D) == Mutate("D", o, D.k, dk, 0, LAMBDA O : RefDefine(O, o, D))
